@@ -56,6 +56,7 @@ pub const BODY_FEE_SEGWIT: u8 = 8;
 pub const BODY_FEE_PAIR: u8 = 9;
 pub const BODY_FEE_ZERO: u8 = 10;
 pub const BODY_ZEROS: u8 = 11;
+pub const BODY_FEE_OVERSPEND: u8 = 12;
 
 pub fn body_name(b: u8) -> &'static str {
     match b {
@@ -70,6 +71,7 @@ pub fn body_name(b: u8) -> &'static str {
         BODY_FEE_SEGWIT => "coinbase 3xA + segwit spend of oldest A output paying fee 1000",
         BODY_FEE_PAIR => "coinbase A + legacy spend (fee 7) + segwit spend (fee 250000)",
         BODY_FEE_ZERO => "coinbase A + spend with fee 0",
+        BODY_FEE_OVERSPEND => "coinbase A + spend with fee 900 + spend whose outputs exceed its inputs (no fee rate)",
         BODY_ZEROS => "coinbase with five outputs to A, the 1st, 3rd and 5th of value 0",
         _ => "?",
     }
@@ -236,6 +238,24 @@ pub fn build_body(w: &World, parent: &H32, body: u8, id: usize) -> Option<Vec<Tr
                 txs.push(spend_tx(&[*k], vec![(*v, book.script(E))], 0, 0xa1));
             }
             Some(txs)
+        }
+        BODY_FEE_OVERSPEND => {
+            // amounts are not validated by the canister: a transaction that creates more than it
+            // spends pays no fee and has no fee rate
+            let src = of(book.script(A).as_bytes());
+            if src.len() < 2 {
+                return None;
+            }
+            let (k1, v1, _) = src[src.len() - 1];
+            let (k2, v2, _) = src[src.len() - 2];
+            if v1 < 900 {
+                return None;
+            }
+            Some(vec![
+                cb_a(),
+                spend_tx(&[k1], vec![(v1 - 900, book.script(E))], 0, 0xa2),
+                spend_tx(&[k2], vec![(v2 + 5_000, book.script(F))], 0, 0xa3),
+            ])
         }
         _ => None,
     }
